@@ -63,6 +63,8 @@ def directed_cases(seed: int, tier: str) -> typing.List[dict]:
     out = []
     for li, lang in enumerate(["c", "cpp", "py", "html"]):
         out.append({"label": "directed-each-dimension-%s" % lang, "dsdl_seed": [seed, PROP, "directed", li % 2], "lang": lang, "each_dim": True})
+    for li, (lang, tpl) in enumerate([("py", "introspect"), ("html", "introspect"), ("cpp", "builtin_copy"), ("c", "introspect")]):
+        out.append({"label": "directed-each-dimension-%s-%s" % (lang, tpl), "dsdl_seed": [seed, PROP, "directed", li % 2], "lang": lang, "each_dim": True, "templates": tpl})
     return out
 
 
@@ -137,13 +139,19 @@ def _perturb(r: Rng, dims: typing.List[str], worker_hash_seed: int) -> dict:
         elif d == "umask":
             w[d] = r.choice([0o077, 0o002, 0o027])
         elif d == "env":
-            w[d] = r.choice([{"TZ": "Asia/Tokyo"}, {"TZ": "America/Los_Angeles", "LANG": "C"}, {"LANG": "de_DE.UTF-8", "LC_ALL": "de_DE.UTF-8"}, {"HOME": "/nonexistent", "USER": "someone"}, {"PYTHONUTF8": "1", "COLUMNS": "20"}])
+            w[d] = r.choice([{"TZ": "Asia/Tokyo"}, {"TZ": "America/Los_Angeles", "LANG": "C"}, {"LANG": "de_DE.UTF-8", "LC_ALL": "de_DE.UTF-8"}, {"HOME": "/nonexistent", "USER": "someone"}, {"PYTHONUTF8": "1", "COLUMNS": "20"}, {"LC_ALL": "C", "PYTHONUTF8": "0", "PYTHONCOERCECLOCALE": "0"}, {"LC_ALL": "POSIX", "PYTHONUTF8": "0", "PYTHONCOERCECLOCALE": "0", "PYTHONIOENCODING": "ascii"}])
         elif d == "lookup_via_env":
             w[d] = r.choice(["forward", "reverse"])
         elif d == "input_meta":
             w[d] = {"mtime": r.choice([0, 946684800, 4102444800]), "mode": r.choice([0o444, 0o644, 0o600])}
         else:
             raise ValueError(d)
+    if str((w.get("env") or {}).get("PYTHONUTF8")) == "0":
+        # under an ASCII locale the interpreter cannot even name non-ASCII paths (file system encoding): that is the
+        # environment's limit, not the generator's, so such a world uses ASCII directory names
+        for k in ("in_location", "out_location", "tpl_location", "cwd"):
+            if k in w:
+                w[k] = w[k].encode("ascii", "replace").decode("ascii").replace("?", "e")
     return w
 
 
@@ -230,10 +238,17 @@ def run_case(case: dict, ctx: dict) -> dict:
     else:
         assert ds is not None
         opts = _gen_opts(r.sub("opts"), ds, case.get("lang"))
+        if case.get("templates"):
+            opts["templates"] = case["templates"]
+            opts.pop("ns_types", None)
+            opts.pop("support_templates", None)
         worlds = []
         if case.get("each_dim"):
             for i, d in enumerate(DIMS):
                 worlds.append(_perturb(r.sub("w", i), [d], worker_hs))
+            for hv in HASH_SEED_VALUES:
+                if hv != worker_hs:
+                    worlds.append({"hash_seed": hv})
         else:
             n = 5 if tier == "quick" else 10
             enabled = r.subset(DIMS, 2, 3) or ["clock_start"]
@@ -242,6 +257,13 @@ def run_case(case: dict, ctx: dict) -> dict:
                 k = rw.weighted([(1, 3), (2, 3), (3, 2), (4, 1)])
                 dims = rw.sample(enabled, min(k, len(enabled)))
                 worlds.append(_perturb(rw, dims, worker_hs))
+
+    # pydsdl (a dependency, not the subject) reads DSDL files with the locale's default encoding: in a world whose
+    # interpreter starts under an ASCII locale the *inputs* are therefore made ASCII for every world of the case;
+    # non-ASCII text still reaches the output through templates (user sets, the C++14 union banner, HTML assets)
+    if any(str((w.get("env") or {}).get("PYTHONUTF8")) == "0" for w in worlds):
+        files = {k: v.encode("ascii", "replace").decode("ascii") for k, v in files.items()}
+        bump("probes", "ascii_locale_world")
 
     def real_opts(o: dict) -> dict:
         o = dict(o)
@@ -310,11 +332,13 @@ def run_case(case: dict, ctx: dict) -> dict:
                     world.in_dir = saved
                 bump("probes", "prelude_over_edited_inputs")
         inv = world.invocation(o, **plan)
-        if delta.get("hash_seed") is not None or delta.get("cold_process"):
+        locale_env = {k: v for k, v in env.items() if k in ("LC_ALL", "LANG", "LC_CTYPE", "PYTHONUTF8", "PYTHONCOERCECLOCALE", "PYTHONIOENCODING")}
+        if delta.get("hash_seed") is not None or delta.get("cold_process") or locale_env:
             hs = delta.get("hash_seed")
             if hs is None:
                 hs = worker_hs  # cold process, same hash seed value as this worker
-            res = proc.run_invocation_fresh(inv, hs)
+            # locale and default encoding are decided when an interpreter starts: such worlds need a fresh one
+            res = proc.run_invocation_fresh(inv, hs, start_env=locale_env or None)
         else:
             res = proc.run_invocation(inv)
         bump("status", res["status"])
